@@ -201,4 +201,18 @@ def liveRun (e : Env) (fs : Ents) (tmp : String) (filled : Ents) : Ents :=
   | (_, none, _) => fs1.erase tmp
   | (_, some l, _) => fs1.set tmp l
 
+/-- `uftrace record [-d DIR] [--host H]` as far as the directory is concerned
+    (cmds/record.c command_record + write_symbol_files): the directory is made
+    by create_directory; recording then fills it with `filled`; with --host the
+    local directory is only a staging area and is removed after sending. A
+    failed create_directory ends the run. -/
+def recordRun (host : Bool) (e : Env) (fs : Ents) (d : String) (filled : Ents) : Ents × Bool :=
+  let r := createDirectory e fs d (d ++ ".old")
+  if !r.ok then (r.fs, false) else
+  let fs1 := r.fs.set d (.dir filled)
+  if !host then (fs1, true) else
+  match rmNode r.env (.dir filled) with
+  | (_, none, _) => (fs1.erase d, true)
+  | (_, some l, _) => (fs1.set d l, true)
+
 end Uft.DirGuard
